@@ -881,4 +881,214 @@ theorem quote_pass : ∀ (N : Nat) (P s' o : Str),
         rw [hres]
         simp [List.append_assoc]
 
+/-! ### putting the five passes together -/
+
+/-- a text accepted when no escape sequence is allowed has no backslash inside a string: Lingo reads it the same way -/
+theorem plain_of_no_escapes : ∀ (n : Str) (m : LM) (t : Str), lfinal (lrun (some []) m n) = some t → lfinal (lrun none m n) = some t := by
+  intro n
+  induction n with
+  | nil => intro m t h; simpa [lrun] using h
+  | cons c r ih =>
+    intro m t h
+    rw [lrun_cons] at h ⊢
+    obtain ⟨q, o⟩ := m
+    cases q with
+    | E p =>
+      rw [lstep_E] at h
+      simp at h
+      rw [lrun_dead] at h; simp [lfinal] at h
+    | S =>
+      by_cases hc : c = '\\'
+      · subst hc
+        have : lstep (some []) ⟨.S, o⟩ '\\' = ⟨.E [], o⟩ := by simp [lstep]
+        rw [this] at h
+        cases r with
+        | nil => simp [lrun, lfinal] at h
+        | cons c' r' =>
+          rw [lrun_cons, lstep_E] at h
+          simp at h
+          rw [lrun_dead] at h; simp [lfinal] at h
+      · have : lstep (some []) ⟨.S, o⟩ c = lstep none ⟨.S, o⟩ c := by
+          by_cases hq : c = '"' <;> simp [lstep, hc, hq]
+        rw [this] at h
+        exact ih _ t h
+    | T => exact ih _ t (by simpa [lstep] using h)
+    | N acc => exact ih _ t (by simpa [lstep] using h)
+    | A k => exact ih _ t (by simpa [lstep] using h)
+    | X => exact ih _ t (by simpa [lstep] using h)
+
+theorem nameOk_BACKSPACE : NameOk (S "BACKSPACE") [Char.ofNat 8] := ⟨by decide, ⟨'B', S "ACKSPACE", by decide, by decide⟩, by decide⟩
+theorem nameOk_ENTER : NameOk (S "ENTER") [Char.ofNat 3] := ⟨by decide, ⟨'E', S "NTER", by decide, by decide⟩, by decide⟩
+theorem nameOk_RETURN : NameOk (S "RETURN") ['\r'] := ⟨by decide, ⟨'R', S "ETURN", by decide, by decide⟩, by decide⟩
+theorem nameOk_TAB : NameOk (S "TAB") ['\t'] := ⟨by decide, ⟨'T', S "AB", by decide, by decide⟩, by decide⟩
+
+theorem dropEsc_J0 : dropEsc J0 ['x', '0', '8'] = J1 := by decide
+theorem dropEsc_J1 : dropEsc J1 ['x', '0', '3'] = J2 := by decide
+theorem dropEsc_J2 : dropEsc J2 ['r'] = J3 := by decide
+theorem dropEsc_J3 : dropEsc J3 ['t'] = [] := by decide
+
+/-- the five passes on the stored text of a string of safe characters -/
+theorem replaceChars_safe (s : Str) (hs : ∀ c ∈ s, safeChar c = true) :
+    evalLingoLit (replaceCharsWithLingoConstants ('"' :: (unicodeEscape s ++ ['"']))) = some s := by
+  unfold replaceCharsWithLingoConstants
+  rw [replacementConstants_value]
+  simp only [List.foldl_cons, List.foldl_nil]
+  have e1 : S "\"" = ['"'] := by decide
+  have e2 : S "\\x08" = '\\' :: ['x', '0', '8'] := by decide
+  have e3 : S "\\x03" = '\\' :: ['x', '0', '3'] := by decide
+  have e4 : S "\\r" = '\\' :: ['r'] := by decide
+  have e5 : S "\\t" = '\\' :: ['t'] := by decide
+  rw [e1, e2, e3, e4, e5]
+  -- QUOTE
+  have hq := quote_pass _ ['"'] s [] rfl (by simp) hs (by simp [lrun, lstep, linit])
+  have hform : (['"'] : Str) ++ unicodeEscape s ++ ['"'] = '"' :: (unicodeEscape s ++ ['"']) := by simp
+  rw [hform] at hq
+  simp only [List.length_singleton, List.nil_append] at hq
+  generalize replLoop (S "QUOTE") ['"'] ('"' :: (unicodeEscape s ++ ['"'])) 1
+    (pyFind ('"' :: (unicodeEscape s ++ ['"'])) ['"'] 1 (('"' :: (unicodeEscape s ++ ['"'])).length - 1)) = n1 at hq ⊢
+  -- BACKSPACE, ENTER, RETURN, TAB
+  have h2 := esc_pass_top J0 escSet_J0 ['x', '0', '8'] (by decide) (Char.ofNat 8) (by decide) _ nameOk_BACKSPACE s n1 hq
+  rw [dropEsc_J0] at h2
+  generalize replLoop (S "BACKSPACE") ('\\' :: ['x', '0', '8']) n1 1 (pyFind n1 ('\\' :: ['x', '0', '8']) 1 (n1.length - 1)) = n2 at h2 ⊢
+  have h3 := esc_pass_top J1 escSet_J1 ['x', '0', '3'] (by decide) (Char.ofNat 3) (by decide) _ nameOk_ENTER s n2 h2
+  rw [dropEsc_J1] at h3
+  generalize replLoop (S "ENTER") ('\\' :: ['x', '0', '3']) n2 1 (pyFind n2 ('\\' :: ['x', '0', '3']) 1 (n2.length - 1)) = n3 at h3 ⊢
+  have h4 := esc_pass_top J2 escSet_J2 ['r'] (by decide) '\r' (by decide) _ nameOk_RETURN s n3 h3
+  rw [dropEsc_J2] at h4
+  generalize replLoop (S "RETURN") ('\\' :: ['r']) n3 1 (pyFind n3 ('\\' :: ['r']) 1 (n3.length - 1)) = n4 at h4 ⊢
+  have h5 := esc_pass_top J3 escSet_J3 ['t'] (by decide) '\t' (by decide) _ nameOk_TAB s n4 h4
+  rw [dropEsc_J3] at h5
+  exact plain_of_no_escapes _ _ _ h5
+
+/-! ### whole-string constants (PREDEFINED_CONSTANTS) and the final statement -/
+
+theorem unicodeEscape_eq_nil (s : Str) (h : unicodeEscape s = []) : s = [] := by
+  cases s with
+  | nil => rfl
+  | cons c cs =>
+    exfalso
+    simp only [unicodeEscape, List.flatMap_cons] at h
+    exact unicodeEscapeChar_ne_nil c (List.append_eq_nil_iff.mp h).1
+
+theorem quote_mem_escape (s : Str) (h : '"' ∈ s) : '"' ∈ unicodeEscape s := by
+  induction s with
+  | nil => simp at h
+  | cons c cs ih =>
+    simp only [unicodeEscape, List.flatMap_cons, List.mem_append] at ih ⊢
+    simp only [List.mem_cons] at h
+    rcases h with h | h
+    · left; rw [← h]; decide
+    · right; exact ih h
+
+/-- safe text whose stored form is a given quote-free text is what the scanner reads from that text -/
+theorem safe_of_escape_eq (s body : Str) (val : Str) (hs : ∀ c ∈ s, safeChar c = true) (hb : unicodeEscape s = body)
+    (hq : '"' ∉ body) (hv : lrun (some J0) ⟨.S, []⟩ body = ⟨.S, val⟩) : s = val := by
+  have hnq : ∀ c ∈ s, c ≠ '"' := by
+    intro c hc e; subst e; exact hq (hb ▸ quote_mem_escape s hc)
+  have := (lrun_safe_text s [] hs hnq).1
+  rw [hb, hv] at this
+  simpa using (LM.mk.inj this).2.symm
+
+theorem escape_eq_quote (s : Str) (hs : ∀ c ∈ s, safeChar c = true) (hb : unicodeEscape s = ['"']) : s = ['"'] := by
+  cases s with
+  | nil => simp [unicodeEscape] at hb
+  | cons c cs =>
+    simp only [unicodeEscape, List.flatMap_cons] at hb
+    have hne := unicodeEscapeChar_ne_nil c
+    have hlen := congrArg List.length hb
+    simp only [List.length_append, List.length_singleton] at hlen
+    have hl1 : (unicodeEscapeChar c).length = 1 := by
+      have : 0 < (unicodeEscapeChar c).length := List.length_pos_iff.mpr hne
+      omega
+    have hcs : List.flatMap unicodeEscapeChar cs = [] := List.eq_nil_of_length_eq_zero (by omega)
+    have hcs' : cs = [] := unicodeEscape_eq_nil cs hcs
+    subst hcs'
+    rw [hcs, List.append_nil] at hb
+    by_cases hc : c = '"'
+    · rw [hc]
+    · exfalso
+      have := (lrun_safe_char c [] (hs c (by simp)) hc).2
+      rw [hb] at this
+      simp at this
+
+/-- C11 for Lingo string literals on the safe domain: the literal written for a string of safe characters (any length)
+    evaluates to the string -/
+theorem evalLingoLit_constLingo_safe (s : Str) (hs : ∀ c ∈ s, safeChar c = true) :
+    evalLingoLit (constLingo (.s (escapeString s))).str = some s := by
+  have hn : escapeString s = '"' :: (unicodeEscape s ++ ['"']) := rfl
+  rw [hn]
+  simp only [constLingo]
+  cases hl : predefinedConstants.lookup ('"' :: (unicodeEscape s ++ ['"'])) with
+  | none =>
+    have hq : startsWith ('"' :: (unicodeEscape s ++ ['"'])) ['"'] = true := by simp [startsWith, List.isPrefixOf]
+    simp only [hq, if_true, Name.str]
+    exact replaceChars_safe s hs
+  | some c =>
+    simp only [Name.str]
+    rw [predefinedConstants_value] at hl
+    simp only [List.lookup] at hl
+    -- which key was it?
+    split at hl
+    · rename_i heq
+      have hE : unicodeEscape s = [] := by
+        have := eq_of_beq heq
+        have h2 : S "\"\"" = ['"', '"'] := by decide
+        rw [h2] at this
+        simp at this
+        exact this
+      have := unicodeEscape_eq_nil s hE
+      subst this
+      cases hl; decide
+    · split at hl
+      · rename_i _ heq
+        have hE : unicodeEscape s = ['\\', 'x', '0', '8'] := by
+          have := eq_of_beq heq
+          have h2 : S "\"\\x08\"" = '"' :: (['\\', 'x', '0', '8'] ++ ['"']) := by decide
+          rw [h2] at this
+          exact List.append_cancel_right (List.cons_eq_cons.mp this).2
+        have := safe_of_escape_eq s _ [Char.ofNat 8] hs hE (by decide) (by decide)
+        subst this
+        cases hl; decide
+      · split at hl
+        · rename_i _ _ heq
+          have hE : unicodeEscape s = ['\\', 'x', '0', '3'] := by
+            have := eq_of_beq heq
+            have h2 : S "\"\\x03\"" = '"' :: (['\\', 'x', '0', '3'] ++ ['"']) := by decide
+            rw [h2] at this
+            exact List.append_cancel_right (List.cons_eq_cons.mp this).2
+          have := safe_of_escape_eq s _ [Char.ofNat 3] hs hE (by decide) (by decide)
+          subst this
+          cases hl; decide
+        · split at hl
+          · rename_i _ _ _ heq
+            have hE : unicodeEscape s = ['"'] := by
+              have := eq_of_beq heq
+              have h2 : S "\"\"\"" = '"' :: (['"'] ++ ['"']) := by decide
+              rw [h2] at this
+              exact List.append_cancel_right (List.cons_eq_cons.mp this).2
+            have := escape_eq_quote s hs hE
+            subst this
+            cases hl; decide
+          · split at hl
+            · rename_i _ _ _ _ heq
+              have hE : unicodeEscape s = ['\\', 'r'] := by
+                have := eq_of_beq heq
+                have h2 : S "\"\\r\"" = '"' :: (['\\', 'r'] ++ ['"']) := by decide
+                rw [h2] at this
+                exact List.append_cancel_right (List.cons_eq_cons.mp this).2
+              have := safe_of_escape_eq s _ ['\r'] hs hE (by decide) (by decide)
+              subst this
+              cases hl; decide
+            · split at hl
+              · rename_i _ _ _ _ _ heq
+                have hE : unicodeEscape s = ['\\', 't'] := by
+                  have := eq_of_beq heq
+                  have h2 : S "\"\\t\"" = '"' :: (['\\', 't'] ++ ['"']) := by decide
+                  rw [h2] at this
+                  exact List.append_cancel_right (List.cons_eq_cons.mp this).2
+                have := safe_of_escape_eq s _ ['\t'] hs hE (by decide) (by decide)
+                subst this
+                cases hl; decide
+              · simp at hl
+
 end Drx.Lscr
